@@ -90,6 +90,9 @@ def run_impl(case):
         twin_case = dict(c)
         twin_case["ops"] = [op for op, f in zip(c["ops"], fired) if not f]
         twin_case["failk"] = [10 ** 6, exc]
+        ckey = json.dumps(c, sort_keys=True)
+        twin_case["noitems"] = c["noitems"] if "noitems" in c else c04._noitems(ckey)
+        twin_case["falsy"] = c["falsy"] if "falsy" in c else c04._falsy(ckey)
         tout, _, _ = c04.run_nested(twin_case) if twin_case["ops"] else ("", [], [])
         sigs = ["%s.%s" % (p[0] + ("[]" if len(p) > 1 else ""), m) for p, m, a in c["ops"]]
     else:
